@@ -12,7 +12,8 @@ LEVEL = "exploration"
 CODE = ["yowsup/stacks/yowstack.py:YowStack.__init__/_construct/send/receive/emitEvent/broadcastEvent/execDetached/loop/getLayerInterface/getLayer",
         "yowsup/stacks/yowstack.py:YowStackBuilder.push/pop/build/getDefaultLayers/getDefaultStack/getProtocolLayers/getCoreLayers",
         "yowsup/layers/__init__.py:YowLayer.emitEvent/broadcastEvent/onEvent/toLower/toUpper, YowParallelLayer.*, YowLayerEvent"]
-BOUNDS = {"quick": "[+ handler style {onEvent override, own decorated, inherited decorated} on depth<=2; 3 legacy constants] " 
+BOUNDS = {"quick": "[+ 5 positions of a subclass next to its base class; payload in {trace, b'', 0, None}] " 
+                   "[+ handler style {onEvent override, own decorated, inherited decorated} on depth<=2; 3 legacy constants] " 
                    "[+ builder ops incl. implicit tuple groups; consumers inside the emitter's group] " 
                    "[+ addPostConstructLayer with 1-2 layers on depth 1..3] " 
                    "(dataflow: plus a send refused by any one layer below the top, followed by another send) stack depth 1..4, each position plain | group of 2 | group of 3; 3 declaration styles x 2 order conventions; every emitter x consumer position, detached and normal; "
